@@ -315,6 +315,7 @@ pub fn check_messages(prop: &str, scenario: &Scenario, model: &Model, res: &Exec
         // C09 also by construction: the range of a definition, read against the text of the
         // file it names, is the very identifier the request was made on
         if ranges && *kind == ReqKind::Definition && !r["result"].is_null() {
+            stats.definitions_read_back += 1;
             if let Some(msg) = definition_text_mismatch(model, state, path, *offset, &r["result"]) {
                 v.push(Violation::new(prop, "definition-text-mismatch", format!("op {i} {path}@{offset}: {msg}")));
             }
@@ -323,13 +324,18 @@ pub fn check_messages(prop: &str, scenario: &Scenario, model: &Model, res: &Exec
         // is for, is the very name it is labelled with (an outline has no URI per entry: each
         // range is in the requested document by definition)
         if ranges && *kind == ReqKind::DocumentSymbol && r["result"].is_array() {
+            stats.outlines_read_back += 1;
             if let Some(msg) = outline_text_mismatch(model, state, path, &r["result"]) {
                 v.push(Violation::new(prop, "outline-text-mismatch", format!("op {i} {path}: {msg}")));
             }
         }
         // ... every position of every answer exists in the text of the document it names, a
         // reference denotes the identifier the request was made on, a link denotes a string
+        if model.after_close.get(i).is_some() {
+            stats.after_close_requests += 1;
+        }
         if ranges && !r["result"].is_null() {
+            stats.shapes_checked += 1;
             let mut alts = vec![model.states[state].overlay()];
             if let Some(alt) = model.after_close.get(i) {
                 alts.push(alt.overlay());
@@ -343,6 +349,7 @@ pub fn check_messages(prop: &str, scenario: &Scenario, model: &Model, res: &Exec
         // ... and a hint answered for a part of the document is one of the hints of the whole
         // document, at the same place (asking for less never moves a hint)
         if *kind == ReqKind::InlayHint && *offset != 0 && model.after_close.get(i).is_none() {
+            stats.partial_hint_ranges += 1;
             let whole: BTreeSet<String> = host.expected(*kind, path, 0, ranges).unwrap_or_default().into_iter().collect();
             if let Some(stray) = got.as_ref().and_then(|g| g.iter().find(|h| !whole.contains(*h))) {
                 v.push(Violation::new(prop, "partial-range-hint-not-in-whole", format!("op {i} {path}@{offset}: hint {stray:?} is not among the hints of the whole document")));
@@ -381,9 +388,23 @@ pub fn check_messages(prop: &str, scenario: &Scenario, model: &Model, res: &Exec
             if let Some(text) = model.states.get(state).and_then(|s| s.overlay().remove(&PathBuf::from(&path))) {
                 let map = crate::refmap::RefMap::new(&text);
                 for d in diags.as_array().map(|a| a.as_slice()).unwrap_or(&[]) {
-                    if span_of(&map, &text, &d["range"]).is_none() {
+                    let Some((a, b)) = span_of(&map, &text, &d["range"]) else {
                         v.push(Violation::new(prop, "position-outside-document", format!("published for {path} version {ver}: range {} does not exist in that text", d["range"])));
                         break;
+                    };
+                    // a "not found" message names what was not found: the range, read in the
+                    // document the diagnostic is published for, must show that very name
+                    let msg = d["message"].as_str().unwrap_or("");
+                    let named = ["class not found: ", "symbol not found: ", "multiclass not found: ", "include file not found: "]
+                        .iter()
+                        .find_map(|p| msg.strip_prefix(p));
+                    if let Some(name) = named {
+                        stats.diagnostic_names_read_back += 1;
+                        if !name.is_empty() && !text[a..b].contains(name) {
+                            let got: String = text[a..b].chars().take(40).collect();
+                            v.push(Violation::new(prop, "diagnostic-text-mismatch", format!("published for {path} version {ver}: {msg:?} at a range that denotes {got:?}")));
+                            break;
+                        }
                     }
                 }
             }
@@ -592,6 +613,13 @@ pub struct MsgStats {
     pub uris_converged: u64,
     pub left_workspace: u64,
     pub cleared_after_fix: u64,
+    /// by-construction oracles (no reference analysis involved): how often each had something to judge
+    pub outlines_read_back: u64,
+    pub definitions_read_back: u64,
+    pub shapes_checked: u64,
+    pub partial_hint_ranges: u64,
+    pub diagnostic_names_read_back: u64,
+    pub after_close_requests: u64,
 }
 
 // ------------------------------------------------------------------------------- C11
